@@ -422,10 +422,19 @@ class StmtMixin(object):
 
     def s_Try(self, st, env):
         rw = self.try_as_membership_test(st, env)
+        if rw is None:
+            rw = self.try_as_hasattr_test(st, env)
         if rw is not None:
             return self.exec_stmt(rw, env)
+        guard = self._catches_attribute_error(st)
+        if guard:
+            self.attr_guard = self.__dict__.get("attr_guard", 0) + 1
         try:
-            self.exec_block(st.body, env)
+            try:
+                self.exec_block(st.body, env)
+            finally:
+                if guard:
+                    self.attr_guard -= 1
         except RaiseSignal as r:
             for h in st.handlers:
                 if self.handler_matches(h, r.exc, env):
@@ -440,6 +449,64 @@ class StmtMixin(object):
         finally:
             if st.finalbody:
                 self.exec_block(st.finalbody, env)
+
+    def _catches_attribute_error(self, st):
+        for h in st.handlers:
+            if h.type is None:
+                continue
+            for t in (h.type.elts if isinstance(h.type, ast.Tuple) else [h.type]):
+                if ast.unparse(t).split(".")[-1] == "AttributeError":
+                    return True
+        return False
+
+    def try_as_hasattr_test(self, st, env):
+        """try: ... getattr(X, N) / X.N ...  except AttributeError: H   with X an object of which the analysis does not know
+        whether it has the attribute is evaluated as   if hasattr(X, N): ...  else: H   (that read is the only thing in the
+        block whose AttributeError is undecided; reads on concrete objects raise or not as usual)"""
+        if st.orelse or st.finalbody or len(st.handlers) != 1:
+            return None
+        h = st.handlers[0]
+        if h.type is None or isinstance(h.type, ast.Tuple) or ast.unparse(h.type).split(".")[-1] != "AttributeError":
+            return None
+        if h.name and any(isinstance(n, ast.Name) and n.id == h.name for b in h.body for n in ast.walk(b)):
+            return None
+        cands = []
+        for b in st.body:
+            for n in ast.walk(b):
+                if isinstance(n, ast.Raise):
+                    return None
+                if isinstance(n, ast.Attribute) and isinstance(n.ctx, ast.Load) and isinstance(n.value, (ast.Name, ast.Attribute)):
+                    cands.append((n.value, ast.Constant(value=n.attr)))
+                elif isinstance(n, ast.Call) and isinstance(n.func, ast.Name) and n.func.id == "getattr" and len(n.args) == 2 \
+                        and not n.keywords and isinstance(n.args[0], (ast.Name, ast.Attribute)) \
+                        and isinstance(n.args[1], (ast.Name, ast.Constant)):
+                    cands.append((n.args[0], n.args[1]))
+        hits = []
+        for x, nm in cands:
+            try:
+                xv = self.eval(x, env)
+                nv = self.eval(nm, env)
+            except (AnalysisError, RaiseSignal):
+                continue
+            if not (isinstance(nv, Const) and isinstance(nv.v, str)):
+                continue
+            try:
+                r = self.hasattr(xv, nv.v)
+            except AnalysisError:
+                continue
+            if not isinstance(r, bool):
+                hits.append((x, nm))
+        if not hits:
+            return None
+        if len(hits) > 1:
+            self.err(st, "several attribute reads that may fail inside one try block catching AttributeError")
+        x, nm = hits[0]
+        test = ast.Call(func=ast.Name(id="hasattr", ctx=ast.Load()), args=[x, nm], keywords=[])
+        new = ast.If(test=test, body=st.body, orelse=h.body)
+        ast.copy_location(new, st)
+        ast.copy_location(test, st)
+        ast.fix_missing_locations(new)
+        return new
 
     def try_as_membership_test(self, st, env):
         """try: ... D[k] ...  except KeyError: H   with D a dictionary filled in a symbolic loop (its keys are not known
